@@ -433,12 +433,15 @@ class RegularExpression(Signature):
     def __bytearray__(self):
         _bytes = super(RegularExpression, self).__bytearray__()
         _bytes += self.regex.encode('utf-8', 'surrogateescape')
+        # RFC 4880 5.2.3.14: the regular expression is null-terminated
+        _bytes += b'\x00'
         return _bytes
 
     def parse(self, packet):
         super(RegularExpression, self).parse(packet)
-        self.regex = packet[:(self.header.length - 1)]
+        regex = packet[:(self.header.length - 1)]
         del packet[:(self.header.length - 1)]
+        self.regex = regex[:-1] if regex.endswith(b'\x00') else regex
 
 
 class Revocable(Boolean):
